@@ -43,7 +43,10 @@ Apply(o, t) ==
     [] t.ev = "BCommit"   -> OBatchCommit(o, t.b, t.id, t.nosend)
     [] t.ev = "Commit"    -> OCommit(o, t.id, t.by)
     [] t.ev = "End"       -> IF t.idle THEN OEnd(o, t.inuse, t.waiters)
-                             ELSE [o EXCEPT !.viol = @ \cup {V("not_idle", 0, 0, "end", "")}]
+                             \* no idle state within the (generous) bound after the last input: a wedge (C04); events still
+                             \* held by then are events the pool never got back (C05: in-use returns to zero when the pipeline goes quiet)
+                             ELSE [o EXCEPT !.viol = @ \cup {V("not_idle", 0, 0, "end", "")}
+                                                       \cup (IF t.inuse > 0 THEN {V("inuse_stuck_after_quiet_period", 0, t.inuse, "pool", "")} ELSE {})]
     [] OTHER              -> o
 
 Init == l = 1 /\ obs = ObsNew(DefaultCfg) /\ run = 0 /\ out = {}
